@@ -816,7 +816,11 @@ func (c *clipperBase) doHorizontal(horz *Active) {
 		}
 
 		for ae != nil {
-			if ae.vertexTop == vertexMax {
+			// an open horizontal only meets its maxima pair for good on the last
+			// horizontal of the run: a run that doubles back passes over (or
+			// stops short of) the pair on an earlier horizontal, and ending
+			// there would skip every edge the rest of the run still crosses
+			if ae.vertexTop == vertexMax && (!horzIsOpen || horz.vertexTop == vertexMax) {
 				if isHotEdge(horz) && isJoined(ae) {
 					c.split(ae, ae.top)
 				}
